@@ -560,3 +560,92 @@ func selfFlush(ctx *core.Ctx, prop string, maxpend int, withFlushOp bool) core.R
 	}
 	return res
 }
+
+// c08EventLoop: an implementation that keeps requests and answers them later, all from one goroutine of its own (an
+// event loop). The request at the head of a shared-tag group is such a kept request; the one queued behind it blocks
+// inside the implementation when it is started. Answering the first is all the event loop does for that tag: it goes
+// on answering kept requests of other tags, on this and on another connection, while the second is still blocked.
+func c08EventLoop(ctx *core.Ctx, maxpend int) core.Result {
+	var res core.Result
+	s, e, other, ok := c08setup(Config{Dotu: true, Msize: 8192, Maxpend: maxpend})
+	if !ok {
+		res.Inconclusive = "c08: setup failed"
+		return res
+	}
+	c := e.c
+	defer c.Hangup()
+	defer other.c.Hangup()
+	for rep := 0; rep < 4 && len(res.Violations) == 0; rep++ {
+		ctx.Beat()
+		det := map[string]interface{}{"maxpend": maxpend, "rep": rep}
+		keep := func(en *c07env, m *wire.Msg) *wire.Msg {
+			p := script.NewPlan()
+			p.NoAnswer = true
+			p.Entered = make(chan struct{})
+			s.Ops.SetPlan(en.c.ID, m.Tag, p)
+			_ = en.c.Send(m)
+			select {
+			case <-p.Entered:
+			case <-time.After(W):
+			}
+			return m
+		}
+		T := e.next()
+		a := keep(e, &wire.Msg{Type: wire.Tstat, Tag: T, Fid: e.root})
+		// the second request of the tag: parked in the implementation when it gets its turn
+		pb := script.NewPlan()
+		pb.Gate, pb.Entered = make(chan struct{}), make(chan struct{})
+		s.Ops.SetPlan(c.ID, T, pb)
+		_ = c.Send(&wire.Msg{Type: wire.Twalk, Tag: T, Fid: e.root, Newfid: uint32(900 + rep)})
+		cm := keep(e, &wire.Msg{Type: wire.Tstat, Tag: e.next(), Fid: e.root})
+		dm := keep(other, &wire.Msg{Type: wire.Tstat, Tag: other.next(), Fid: other.root})
+		if !s.Ctl.WaitPassed("process.done", c.ID, int(a.Tag), 1, 2*time.Second) {
+			// (the head of the group has to be back from the implementation, "kept", before it is answered)
+			time.Sleep(5 * time.Millisecond)
+		}
+		time.Sleep(2 * time.Millisecond)
+		// the event loop
+		loopDone := make(chan struct{})
+		go func() {
+			s.Ops.AnswerPending(c.ID, a.Tag)
+			s.Ops.AnswerPending(c.ID, cm.Tag)
+			s.Ops.AnswerPending(other.c.ID, dm.Tag)
+			close(loopDone)
+		}()
+		res.Evals++
+		late := ""
+		if rp, err := c.WaitTag(cm.Tag, W); err != nil || rp.Msg == nil {
+			late = "a kept request with another tag on the same connection"
+		} else if rp, err := other.c.WaitTag(dm.Tag, W); err != nil || rp.Msg == nil {
+			late = "a kept request on another connection"
+		}
+		select {
+		case <-pb.Entered:
+		case <-time.After(2 * time.Second):
+		}
+		close(pb.Gate)
+		if late != "" {
+			// answered once the blocked request is released?
+			c.WaitTag(cm.Tag, W)
+			other.c.WaitTag(dm.Tag, W)
+			res.Violate("C08;event-loop;answers-wait-for-a-blocked-successor", late+" was answered by the implementation's event loop right after the head of a shared-tag group, and the answer did not go out while the next request of that group was blocked in the implementation", det)
+		}
+		select {
+		case <-loopDone:
+		case <-time.After(W):
+			res.Inconclusive = "c08: event loop never finished"
+			return res
+		}
+		// replies under the shared tag: the kept Tstat, then the Twalk
+		for i, want := range []uint8{wire.Rstat, wire.Rwalk} {
+			if rp, err := c.WaitTag(T, W); err != nil || rp.Msg == nil || rp.Msg.Type != want {
+				res.Violate("C08;event-loop;group-replies", fmt.Sprintf("reply %d under the shared tag is not a %s", i, wire.TypeName(want)), det)
+				break
+			}
+		}
+		c.Quiesce(W)
+		e.ok(&wire.Msg{Type: wire.Tclunk, Fid: uint32(900 + rep)})
+		res.Sig(fmt.Sprintf("event-loop|mp=%d", maxpend))
+	}
+	return res
+}
